@@ -7,6 +7,7 @@
 #include <sstream>
 #include <string>
 #include <vector>
+#include "verif_guard.h"
 
 #ifndef VERIF_NO_NAUNET
 #include "naunet.h"
@@ -80,7 +81,7 @@ int main() {
             while (n < NEQUATIONS && in >> v) g_y[n++] = v;
             printf("{\"ev\":\"y\",\"n\":%d}\n", n);
         } else if (cmd == "rates" || cmd == "rates_nan") {
-            double *k = (double *)malloc(sizeof(double) * NREACTIONS);
+            double *k = verif_guarded_alloc(NREACTIONS);
             double *y = (double *)malloc(sizeof(double) * NEQUATIONS);
             for (int i = 0; i < NREACTIONS; i++) k[i] = (cmd == "rates") ? 0.0 : sentinel();
             for (int i = 0; i < NEQUATIONS; i++) y[i] = g_y[i];
@@ -90,7 +91,7 @@ int main() {
             { double kc[NCOOLPROCS] = {0.0}; EvalCoolingRates(kc, y, &g_data); printf(","); parr("kc", kc, NCOOLPROCS); }
 #endif
             printf("}\n");
-            free(k); free(y);
+            verif_guarded_free(k, NREACTIONS); free(y);
         } else if (cmd == "fex") {
             double ydot[NEQUATIONS];
             run_fex(g_y, ydot);
